@@ -1,4 +1,7 @@
+#[cfg(not(kani))]
 use std::collections::{HashMap, HashSet};
+#[cfg(kani)]
+use crate::verif_kani::shim::{HashMap, HashSet};
 use std::fmt::Formatter;
 
 #[derive(Debug, Copy, Clone, PartialEq, Eq, Hash)]
